@@ -15,6 +15,7 @@
 // configuration; its inner loop runs every condition vector of that configuration.
 #include "harness/typed_load.hpp"
 #include "ref/ref_validation.hpp"
+#include "harness/kinds_scenario.hpp"
 #include "bitserializer/types/std/vector.h"
 #include "bitserializer/types/std/map.h"
 #include <unordered_set>
@@ -448,8 +449,21 @@ static void body(bsx::Ctx& c) {
 	c.transition(gInvocations - inv0);
 }
 
+// Second scenario (sanitizer build only): the `isLoaded` flag and Required for every scalar target kind, including registered enums
+// and chrono types, under one offence (value of another kind, or key absent) - harness/kinds_scenario.hpp.
+static const std::vector<std::pair<std::string, Val>>& kindOffences() {
+	static const std::vector<std::pair<std::string, Val>> o = {{"nil", Val::nil()}, {"bool", Val::boolean(true)}, {"int", Val::integer(7)}, {"bigint", Val::integer(1ll << 40)}, {"negint", Val::integer(-5)}, {"float", Val::dbl(2.5)},
+		{"str", Val::str("off")}, {"arr", Val::arr({Val::integer(1), Val::integer(2)})}, {"map", Val::map({{Val::str("x"), Val::integer(1)}})}, {"bin", Val::bin("\x07")}, {"ts64", Val::ts(1, 5)}};
+	return o;
+}
+static void bodyAll(bsx::Ctx& c) {
+#ifndef C17_WIDE
+	if (c.choose(2, "scenario") == 1) { kindsScenario(c, "C17", kindOffences(), true); return; }
+#endif
+	body(c);
+}
 int main(int argc, char** argv) {
 	bsx::Config cfg; cfg.part_depth = 5; cfg.max_dev = 0; cfg.hang_s = 10;
-	bsx::Engine e("C17", body, cfg);
+	bsx::Engine e("C17", bodyAll, cfg);
 	return e.main(argc, argv);
 }
